@@ -152,7 +152,7 @@ class Analyzer:
             if rv.get("ak") == "tuple" and not rv["ops"]:
                 return Role("unit")
             if rv.get("ak") == "array" and not o.proj:
-                return Role("array", items=[self.role_of_operand(x) for x in rv["ops"]])
+                return Role("array", items=[self.role_of_operand(x) for x in rv["ops"]], ops=list(rv["ops"]))
             return Role("other", why="aggregate " + pp.rvalue(rv))
         return Role("other", why=o.kind + " " + str(getattr(o, "why", "")))
 
@@ -262,6 +262,16 @@ class Analyzer:
                     r = Role("not", x=r)
             else:
                 r = Role("other", why=f"{decl.rsplit('::', 1)[-1]} over {src!r} with {test or 'a function that is not Option::is_none / is_some'}")
+        elif decl.endswith("Iterator::find") and a(0).kind == "iter" and a(0).of.kind == "array" and not a(0).adapters and self._second_field_test(args[1]):
+            # a table of (facet name, "is violated") pairs searched for the first pair whose flag is set
+            items = []
+            for it_ in a(0).of.ops:
+                os_ = [o_ for o_ in M.trace(self.B, it_, ()) if o_.kind == "aggregate" and o_.rv.get("ak") == "tuple" and len(o_.rv["ops"]) == 2]
+                if len(os_) != 1:
+                    items = None
+                    break
+                items.append(os_[0].rv["ops"][1])
+            r = Role("first_true", items=items) if items else Role("other", why="find over a table whose rows are not (name, flag) pairs")
         elif decl.endswith("Iterator::all"):
             # all(|e| e != v)  ==  !any(|e| e == v)
             src = a(0)
@@ -310,6 +320,28 @@ class Analyzer:
             else:
                 r = Role("other", why=f"call {decl}")
         return self.apply_fields(r, o.proj, flags)
+
+    def _second_field_test(self, operand):
+        """the closure handed to `find` is `|(_, flag)| *flag`: it returns field 1 of the element and does nothing else"""
+        for o in M.trace(self.B, operand, ()):
+            if not (o.kind == "aggregate" and o.rv.get("closure")):
+                return False
+            cb = self.F.lib.body(o.rv["closure"])
+            if cb is None or not cb.get("mir"):
+                return False
+            CB = M.Body(cb)
+            if CB.calls() or any(st_["k"] == "assign" and st_["rv"]["k"] in ("binop", "unop", "cast") for i_ in sorted(CB.reach) for st_ in CB.blocks[i_]["stmts"]):
+                return False
+            rets = [st_ for i_ in sorted(CB.reach) for st_ in CB.blocks[i_]["stmts"] if st_["k"] == "assign" and st_["p"]["l"] == 0 and not st_["p"].get("proj")]
+            for st_ in rets:
+                if st_["rv"]["k"] != "use":
+                    return False
+                os_ = M.trace(CB, st_["rv"]["op"], ())
+                if not (os_ and all(x.kind == "arg" and x.local == 2 and [f_ for f_ in x.fields()] == ["1"] for x in os_)):
+                    return False
+            if not rets:
+                return False
+        return True
 
     def _option_test(self, operand):
         """'is_none' / 'is_some' when the function handed over is `Option::is_none` / `Option::is_some` or a closure that only calls it on
@@ -493,6 +525,9 @@ class Analyzer:
             if isinstance(v, int):
                 vals[l] = ("int", v)
                 return
+        if (k == "binop" and rv.get("op") in ("Lt", "Le", "Gt", "Ge", "Eq", "Ne")) or (k == "unop" and rv.get("op") == "Not"):
+            vals[l] = ("def", bb, rv)     # on this path the local holds this comparison / negation
+            return
         if k == "use" and rv["op"].get("k") in ("copy", "move") and not rv["op"]["p"].get("proj") and rv["op"]["p"]["l"] in vals:
             vals[l] = vals[rv["op"]["p"]["l"]]
             return
@@ -551,14 +586,63 @@ class Analyzer:
                 return self._result_branch(st, of.of, ok=(variant == 0), bb=bb)
             if of.kind == "result":
                 return self._result_branch(st, of, ok=(variant == 0), bb=bb)
+            if of.kind == "first_true":
+                # `[(name, test), ..].iter().find(|(_, t)| *t)`: Some = the first test that holds (those before it do not), None = none holds
+                roles = [self._role_on_path(st, op) for op in of.items]
+                states = [st]
+                if variant == 0:
+                    for r in roles:
+                        states = self._apply_all(states, r, False, bb)
+                    return states or False
+                out = []
+                for i, r in enumerate(roles):
+                    cur = [self._fork(st)]
+                    for q in roles[:i]:
+                        cur = self._apply_all(cur, q, False, bb)
+                    out += self._apply_all(cur, r, True, bb)
+                return out or False
             raise Undecided(f"branch on discriminant of {of!r}", bb)
         truth = self._truth(val, values)
         if truth is None:
             raise Undecided(f"non-boolean switch on {role!r}", bb)
         return self._constrain_bool(st, role, truth, bb)
 
+    def _apply_all(self, states, role, truth, bb):
+        """constrain every state with `role == truth`; states in which that cannot hold drop out"""
+        out = []
+        for s_ in states:
+            s2 = self._fork(s_)
+            r = self._constrain_bool(s2, role, truth, bb)
+            if r is True:
+                out.append(s2)
+            elif r:
+                out += list(r)
+        return out
+
+    def _role_on_path(self, st, op):
+        """role of an operand with the definitions made on the current path taken into account: a boolean that is `false` on the
+        path where a facet is absent and a comparison on the path where it is present is, here, the one or the other"""
+        if op.get("k") in ("copy", "move") and not op["p"].get("proj"):
+            l = op["p"]["l"]
+            v = st["vals"].get(l)
+            hops = 0
+            while isinstance(v, tuple) and v[0] == "alias" and hops < 8:
+                l = v[1]
+                v = st["vals"].get(l)
+                hops += 1
+            if isinstance(v, tuple) and v[0] == "int":
+                return Role("const", value=v[1])
+            if isinstance(v, tuple) and v[0] == "def":
+                return self.role_of_origin(M.Origin("op", rv=v[2], bb=v[1], proj=[], steps=[]))
+            if isinstance(v, tuple) and v[0] == "calldef":
+                return self.role_of_origin(M.Origin("call", term=self.B.term(v[1]), bb=v[1], proj=[], steps=[]))
+            return self.role_of_operand({"k": "copy", "p": {"l": l}})
+        return self.role_of_operand(op)
+
     def _constrain_bool(self, st, role, truth, bb):
         k = role.kind
+        if k == "const":
+            return bool(role.value) == bool(truth)
         if k == "not":
             return self._constrain_bool(st, role.x, not truth, bb)
         if k == "absent":
